@@ -243,7 +243,7 @@ class CheckRun:
                 path = REPLAYS / self.prop / (_safe(ob["name"]) + ".json")
                 path.write_text(json.dumps({"property": self.prop, "kind": "P(library)", **ob,
                                             "how": f"./check {self.prop} --replay {_rel(path)}"}, indent=1, default=str))
-                self.violations.append((str(_rel(path)), "", ob["name"]))
+                self.violations.append((str(_rel(path)), "" if ob.get("witness") else " no-failing-input-found", ob["name"]))
             else:
                 self.undecided.append(f"{ob['name']}: {ob.get('detail', 'undecided')}")
         for fid, obls in known_hit_ids.items():
